@@ -100,6 +100,7 @@ func Harness_C13_q_get_arbitrary_ids() {
 	})
 	verif.Assert(!p, "nopanic-get-ids")
 	verif.Assert(p || rec.status != 0, "get-always-answers")
+	c13StillServes(w, "arbitrary-get")
 	verif.Reach("end")
 }
 
@@ -122,7 +123,30 @@ func Harness_C13_q_pairings_any_message() {
 	})
 	verif.Assert(!p, "nopanic-pairings")
 	verif.Assert(p || rec.status != 0, "pairings-always-answers")
+	c13StillServes(w, "arbitrary-pairings-request")
 	verif.Reach("end")
 }
 
 var _ = pair.TagSequence
+
+// c13StillServes: after the arbitrary request, a well-formed request on this or on another
+// verified connection is still answered (nothing is left locked or half-updated).
+func c13StillServes(w *zzWorld, label string) {
+	w.connect("10.0.0.3:5000", true)
+	remotes := []string{"10.0.0.2:5000", "10.0.0.3:5000"}
+	remote2 := remotes[verif.Choice("next-request-from", 2)]
+	rec2 := newRecorder()
+	answered := verif.Completes(func() {
+		if verif.Choice("next-request", 2) == 0 {
+			verif.MuxHandler(w.srv.Mux, "/accessories").ServeHTTP(rec2, zzRequest("GET", "/accessories", remote2, nil, nil))
+		} else {
+			f2 := url.Values{}
+			f2.Set("id", "1."+itoa(w.bright.Characteristic.ID))
+			verif.MuxHandler(w.srv.Mux, "/characteristics").ServeHTTP(rec2, zzRequest("GET", "/characteristics", remote2, f2, nil))
+		}
+	})
+	verif.Assert(answered, "not-wedged-after-"+label)
+	if answered {
+		verif.Assert(rec2.status == 200, "well-formed-request-answered-after-"+label)
+	}
+}
